@@ -12,7 +12,7 @@
    It is NOT proved in full here; what is proved is listed below (`_partial`).            *)
 From HV Require Import Proto.RaftNet Proto.PRaftLocal Proto.PRaftElection Proto.PRaftRefine Proto.PRaftLeader
   Proto.PRaftWf Proto.PRaftLog Proto.PRaftLogRefine Proto.PRaftSms Proto.PRaftExamples.
-From HV Require Proto.PaxosModel Proto.PPaxos.
+From HV Require Proto.PaxosModel Proto.PPaxos Proto.PaxosCheck Proto.PPaxosRecommit.
 
 Definition C40_raft_sms (n : N) : Prop := C40_raft_sms_stmt n.
 
@@ -135,3 +135,13 @@ Print Assumptions C40_paxos_safety.
 
 Example C40_paxos_nonvacuous : exists p, PaxosModel.preachable 3 p /\ PaxosModel.chosen 3 p 0 7.
 Proof. exact PPaxos.paxos_nonvacuous. Qed.
+
+(* the new leader's p2a choice as modelled from hydro_test's `recommit_after_leader_election`
+   (PaxosCheck.px_recommit; compared with the real function on every run) obeys, for EVERY set of
+   p1b logs, the choice rule the abstract system demands of P2a (`pick_ok`, here in its
+   executable form over (num, proposer) ballots): own ballot; free choice only for a slot no log
+   mentions, otherwise the value of a maximal-ballot entry *)
+Theorem C40_paxos_recommit_obeys_pick : forall f bal logs o, In o (PaxosCheck.px_recommit f bal logs) ->
+  snd (fst o) = bal /\ PaxosCheck.pick_ok_b logs (fst (fst o)) (snd o) = true.
+Proof. exact PPaxosRecommit.px_recommit_obeys_pick. Qed.
+Print Assumptions C40_paxos_recommit_obeys_pick.
